@@ -5,6 +5,8 @@ mod c03;
 mod c06;
 mod c08;
 mod c09;
+mod c10;
+mod transports;
 mod selftest;
 
 fn main() {
@@ -12,6 +14,9 @@ fn main() {
     if args.len() < 2 {
         eprintln!("usage: nunverif <property|selftest> <quick|thorough> [args]");
         std::process::exit(64);
+    }
+    if args[1] != "load-probe" {
+        common::init_default_dir();
     }
     let tier = args.get(2).map(|s| s.as_str()).unwrap_or("quick");
     let code = match args[1].as_str() {
@@ -22,6 +27,7 @@ fn main() {
         "C06" => c06::run(tier),
         "C08" => c08::run(tier),
         "C09" => c09::run(tier),
+        "C10" => c10::run(tier),
         "load-probe" => c06::load_probe_child(&args[3]),
         other => {
             eprintln!("unknown sub-command {}", other);
